@@ -12,8 +12,13 @@ regenerated from the repository's current source into coq/Generated/TaintSites.v
   * whether `Manager.Unlock` (waddrmgr/manager.go) ever loads the script
     crypto key (`unlock_decrypts_script_key`; DESIGN section 6, S5).
 
-Anything that is not recognised raises, so that the check reports a broken
-obligation instead of silently keeping an old table."""
+Primary path: the shape of the source (switch over the address-row type, or
+the equivalent if / else-if chain comparing one evaluation of the tag).
+Fallback, only when the shape is not recognised: the two regenerated facts
+are determined behaviourally by running their witness scenarios on the code
+built from the repository (probe_facts).  The Generated file records which
+path ran (`facts source:`).  Only if both paths fail does main raise, so that
+the check reports a broken obligation instead of keeping an old table."""
 import os, re
 
 
@@ -78,11 +83,65 @@ def switch_cases(body, head, path):
     return out
 
 
+def ifchain_cases(body, tag, path):
+    """{label: text of the arm} for an if / else-if chain that compares ONE tag value with labels:
+         if [v := <tag>;] (v|<tag>) == L1 [|| (v|<tag>) == L2 ...] { arm } else if ... { arm }
+    equivalent to an expression switch over <tag> without default and without fall-through when the tag is
+    evaluated once (init statement) or is a plain field read compared in every condition.  A final plain
+    `else { ... }` is refused (it would be a default arm)."""
+    tagre = re.escape(tag)
+    m = None
+    for cand in re.finditer(r"\bif\s+(?:(\w+)\s*:=\s*%s\s*;\s*)?((?:\w+|%s)\s*==\s*\w+(?:\s*\|\|\s*(?:\w+|%s)\s*==\s*\w+)*)\s*\{" % (tagre, tagre, tagre), body):
+        before = body[:cand.start()].rstrip()
+        if before.endswith("else"):
+            continue
+        if cand.group(1) or re.search(tagre, cand.group(2)):
+            m = cand
+            break
+    if not m:
+        raise ExtractError("%s: deletePrivateKeys: no if-chain over %s found" % (path, tag))
+    var = m.group(1)
+    out = {}
+    cond, pos = m.group(2), m.end() - 1
+    while True:
+        labels = []
+        for part in cond.split("||"):
+            mm = re.fullmatch(r"\s*(\w+|%s)\s*==\s*(\w+)\s*" % tagre, part)
+            if not mm or mm.group(1) not in ([var] if var else []) + [tag]:
+                raise ExtractError("%s: deletePrivateKeys: condition %r of the if-chain is not a comparison of %s" % (path, cond, tag))
+            labels.append(mm.group(2))
+        depth, j = 0, pos
+        while j < len(body):
+            if body[j] == "{":
+                depth += 1
+            elif body[j] == "}":
+                depth -= 1
+                if depth == 0:
+                    break
+            j += 1
+        arm = body[pos + 1:j]
+        if var and re.search(r"\b%s\s*(=[^=]|:=)" % re.escape(var), arm):
+            raise ExtractError("%s: deletePrivateKeys: the tag variable is assigned inside an arm" % path)
+        for lab in labels:
+            if lab in out:
+                raise ExtractError("%s: deletePrivateKeys: label %s occurs twice in the if-chain" % (path, lab))
+            out[lab] = arm
+        rest = body[j + 1:]
+        m2 = re.match(r"\s*else\s+if\s+((?:\w+|%s)\s*==\s*\w+(?:\s*\|\|\s*(?:\w+|%s)\s*==\s*\w+)*)\s*\{" % (tagre, tagre), rest)
+        if m2:
+            cond, pos = m2.group(1), j + 1 + m2.end() - 1
+            continue
+        if re.match(r"\s*else\b", rest):
+            raise ExtractError("%s: deletePrivateKeys: the if-chain ends with a plain else (a default arm)" % path)
+        return out
+
+
 def squeeze(s):
     return re.sub(r"\s+", "", s)
 
 
-def main(repo, outdir, write_if_changed):
+def source_facts(repo):
+    """facts read off the shape of the source (primary path)"""
     p_db = os.path.join(repo, "waddrmgr", "db.go")
     p_mgr = os.path.join(repo, "waddrmgr", "manager.go")
     db = strip_comments(open(p_db).read())
@@ -95,11 +154,20 @@ def main(repo, outdir, write_if_changed):
     if not re.search(r"managerScopeBucket\.Delete\(\s*coinTypePrivKeyName\s*\)", body):
         raise ExtractError("%s: deletePrivateKeys no longer deletes the coin-type private key of each scope" % p_db)
 
-    acct = switch_cases(body, r"switch\s+row\.acctType\s*\{", p_db)
+    def cases(tag):
+        try:
+            return switch_cases(body, r"switch\s+%s\s*\{" % re.escape(tag), p_db)
+        except ExtractError as e1:
+            try:
+                return ifchain_cases(body, tag, p_db)
+            except ExtractError as e2:
+                raise ExtractError("%s; %s" % (e1, e2))
+
+    acct = cases("row.acctType")
     if "accountDefault" not in acct or "serializeDefaultAccountRow(arow.pubKeyEncrypted,nil," not in squeeze(acct["accountDefault"]):
         raise ExtractError("%s: deletePrivateKeys: accountDefault rows are not re-serialised without the private key" % p_db)
 
-    addr = switch_cases(body, r"switch\s+row\.addrType\s*\{", p_db)
+    addr = cases("row.addrType")
     need = {
         "adtImport": "serializeImportedAddress(irow.encryptedPubKey,nil)",
         "adtScript": "serializeScriptAddress(srow.encryptedHash,nil)",
@@ -124,9 +192,71 @@ def main(repo, outdir, write_if_changed):
     loads_script = bool(re.search(r"m\.cryptoKeyScript\.CopyBytes\(", unlock))
     if not re.search(r"m\.cryptoKeyPriv\.CopyBytes\(", unlock):
         raise ExtractError("%s: Unlock: loading of the private crypto key not recognised" % p_mgr)
+    return dict(cases=sorted(l for l in addr if l != "adtChain"), wo_strips_taproot=strips_tr,
+                unlock_decrypts_script_key=loads_script)
 
-    cases = sorted(l for l in addr if l != "adtChain")
-    text = """(* GENERATED by lib/extract_c04.py from the repository's waddrmgr/db.go
+
+def _run_probe(repo):
+    """build harness/cmd/c04 against `repo` and run its -probe mode"""
+    import hashlib, json, shutil, subprocess
+    import vlib
+    with vlib.Lock("go"):
+        os.makedirs(os.path.join(vlib.WORK, "bin"), exist_ok=True)
+        modflag = []
+        if repo == "/repo":
+            shutil.copyfile(os.path.join(repo, "go.sum"), os.path.join(vlib.HARNESS, "go.sum"))
+        else:
+            alt = os.path.join(vlib.WORK, "extract_c04_%s.mod" % hashlib.sha1(repo.encode()).hexdigest()[:8])
+            txt = open(os.path.join(vlib.HARNESS, "go.mod")).read().replace("=> /repo", "=> " + repo)
+            open(alt, "w").write(txt)
+            shutil.copyfile(os.path.join(repo, "go.sum"), alt[:-4] + ".sum")
+            modflag = ["-modfile=" + alt]
+        exe = os.path.join(vlib.WORK, "bin", "extract-c04")
+        p = subprocess.run(["go", "build"] + modflag + ["-tags", "verif", "-o", exe, "./cmd/c04"], cwd=vlib.HARNESS,
+                           env=vlib.GOENV, stdout=subprocess.PIPE, stderr=subprocess.PIPE, text=True, timeout=900)
+        if p.returncode != 0:
+            raise ExtractError("probe: harness/cmd/c04 does not build against %s: %s" % (repo, (p.stdout + p.stderr)[-1500:]))
+    p = subprocess.run([exe, "-probe"], cwd=vlib.WORK, stdout=subprocess.PIPE, stderr=subprocess.PIPE, text=True, timeout=300)
+    if p.returncode != 0:
+        raise ExtractError("probe: c04 -probe failed: %s" % p.stderr[-1500:])
+    return json.loads(p.stdout)
+
+
+def probe_facts(repo):
+    """Facts determined by running the code built from `repo` (fallback path; harness/cmd/c04/probe.go).
+
+    Three wallets (fresh after Create+Open+Unlock; after an additional Lock/Unlock cycle; on a manager re-opened
+    from the file), each importing, in the scopes 86, 84 and 44: a secret p2sh script, a secret p2wsh script, a
+    secret taproot script, a public taproot script and a public p2wsh script (scripts of different lengths).
+
+    unlock_decrypts_script_key.  The model uses the fact only through `seal_label KCryptoScript`: which key opens
+      the script field of a secret script row written by an unlocked manager.  That is observed directly: each of
+      the 27 fields is opened with the all-zero key and with the key persisted as main/cscript (which the probe
+      derives itself from the private passphrase and the stored master-key parameters).  All open under the zero
+      key and none under the stored key -> false (the defect behaviour S5 shows); all under the stored key and
+      none under the zero key -> true; anything else is inconsistent and fails the probe.
+    wo_strips_taproot.  The model uses the fact only in `strip_val`: whether ConvertToWatchingOnly re-serialises a
+      secret taproot script row (address type 4, secret flag set) with an empty script field.  That is the row the
+      witness `C04_watch_only_residue_at_K` / corpus/C04/taproot_secret_script_survives_conversion.jsonl looks at:
+      after the conversion the 9 such rows are read back; all empty -> true, all unchanged in length -> false
+      (defect shows), mixed -> fails.  Controls make the scenario conclusive: the secret p2sh / p2wsh rows of the
+      same wallets must be blanked and the public rows must be kept, otherwise the probe fails (a conversion that
+      blanks nothing or everything says nothing about the taproot case alone).
+    Everything else the source path insists on (main-bucket deletes, coin-type key, account rows) is not a
+    regenerated fact; it is compared row by row with the model on every run of the check."""
+    res = _run_probe(repo)
+    if res.get("errors"):
+        raise ExtractError("probe: " + "; ".join(res["errors"])[:1500])
+    if res.get("wo_strips_taproot") is None or res.get("unlock_decrypts_script_key") is None:
+        raise ExtractError("probe: facts not determined: %r" % res)
+    cases = ["adtImport", "adtScript"] + (["adtTaprootScript"] if res["wo_strips_taproot"] else []) + ["adtWitnessScript"]
+    return dict(cases=cases, wo_strips_taproot=bool(res["wo_strips_taproot"]),
+                unlock_decrypts_script_key=bool(res["unlock_decrypts_script_key"]),
+                detail="; ".join(res.get("detail") or []), instances=res.get("instances"))
+
+
+def render(facts, source_line):
+    return """(* GENERATED by lib/extract_c04.py from the repository's waddrmgr/db.go
    (deletePrivateKeys) and waddrmgr/manager.go (Unlock).  Do not edit;
    bin/extract rewrites it.
 
@@ -135,6 +265,7 @@ def main(repo, outdir, write_if_changed):
    wo_strips_taproot: adtTaprootScript is among them.
    unlock_decrypts_script_key: Unlock loads cryptoKeyScript (false: the
    in-memory script key stays all-zero, DESIGN section 6 S5). *)
+(* facts source: %s *)
 From Coq Require Import String List Bool.
 Import ListNotations.
 Local Open Scope string_scope.
@@ -142,8 +273,25 @@ Local Open Scope string_scope.
 Definition wo_strip_cases : list string := [%s].
 Definition wo_strips_taproot : bool := %s.
 Definition unlock_decrypts_script_key : bool := %s.
-""" % ("; ".join('"%s"' % c for c in cases), "true" if strips_tr else "false", "true" if loads_script else "false")
-    write_if_changed(os.path.join(outdir, "TaintSites.v"), text)
+""" % (source_line.replace("*)", "* )"), "; ".join('"%s"' % c for c in facts["cases"]),
+       "true" if facts["wo_strips_taproot"] else "false", "true" if facts["unlock_decrypts_script_key"] else "false")
+
+
+def main(repo, outdir, write_if_changed):
+    try:
+        facts = source_facts(repo)
+        source_line = "source (shape of deletePrivateKeys / Unlock recognised)"
+    except Exception as e1:      # any reader error means: shape not recognised
+        why = "%s: %s" % (type(e1).__name__, e1)
+        try:
+            facts = probe_facts(repo)
+        except Exception as e2:
+            raise ExtractError("source shape not recognised (%s) AND probing the built code failed (%s: %s)"
+                               % (why, type(e2).__name__, e2))
+        source_line = ("probe (source shape not recognised: %s; facts determined by the witness scenarios on the code "
+                       "built from the repository, harness/cmd/c04 -probe, %s wallets: %s)"
+                       % (re.sub(r"\s+", " ", why)[:300], facts.get("instances"), facts.get("detail")))
+    write_if_changed(os.path.join(outdir, "TaintSites.v"), render(facts, source_line))
 
 
 if __name__ == "__main__":
